@@ -1,5 +1,6 @@
 SPECIFICATION TSpec
 CONSTANTS KeepHistory = FALSE
 INVARIANTS BufBound RetLeReq NeverExceeds NoInnerAfterZero LengthFaithful CbsRising CbsCurrent CbsComplete
+VIEW TView
 POSTCONDITION Accepted
 CHECK_DEADLOCK FALSE
